@@ -6,7 +6,7 @@ ROOT = os.path.dirname(os.path.dirname(os.path.abspath(__file__)))
 STATUS = {
     "C01": ("proof", "44 theorems: overflowing/checked/wrapping/saturating/strict/inherent add, sub, neg, abs, add_signed, add_unsigned, sub_unsigned, carrying_add, borrowing_sub, abs_diff, unsigned_abs, midpoint, for every digit width w > 0 and every digit count; three tie theorems: digit.rs, 68 glue functions and the overflowing_add / overflowing_sub / Add<Digit> loops are REGENERATED from /repo's source on every run and proved equal to the model"),
     "C02": ("proof", "20 theorems: long_mul exact low half + exact overflow flag, widening_mul / carrying_mul full double-width product, signed overflowing_mul incl. MIN * -1, all projections, for every w > 0 and every n; three tie theorems: digit.rs, 17 glue functions and long_mul (nested loop with break) are REGENERATED from /repo's source on every run and proved equal to the model"),
-    "C03": ("proof", "70 theorems: div_rem_digit, div_rem_unchecked on ALL dispatch paths incl. Knuth algorithm D (quotient-estimate bounds, add-back, normalisation) for every digit width, n = q*d + r with 0 <= r < d; signed truncation = Z.quot/Z.rem, euclid pair, div_floor/div_ceil, next_multiple_of / checked_next_multiple_of as least/greatest multiple, zero divisor -> None / Panic, MIN / -1 cases of every form; three tie theorems: digit.rs, 32 glue functions, div_rem_digit and last_digit_index are REGENERATED from /repo's source on every run and proved equal to the model (Knuth D itself is hand-modelled)"),
+    "C03": ("proof", "72 theorems: div_rem_digit, div_rem_unchecked on ALL dispatch paths incl. Knuth algorithm D (quotient-estimate bounds, add-back, normalisation) for every digit width, n = q*d + r with 0 <= r < d; signed truncation = Z.quot/Z.rem, euclid pair, div_floor/div_ceil, next_multiple_of / checked_next_multiple_of as least/greatest multiple, zero divisor -> None / Panic, MIN / -1 cases of every form; three tie theorems: digit.rs, 32 glue functions, div_rem_digit and last_digit_index and Knuth's Algorithm D itself (basecase_div_rem with its Remainder / Mul structs, tools/rs2v_div.py) are REGENERATED from /repo's source on every run and proved equal to the model"),
     "C04": ("proof", "18 theorems: exact panic conditions per build mode for + - * neg abs pow next_power_of_two, << >> with each of the twelve primitive amount types (negative, >= BITS, > u32::MAX), strict_*, ilog2; division panics are the C03 theorems; option-/pair-valued forms have no Panic value in the model and the correspondence check compares catch_unwind outcomes in both build modes"),
     "C05": ("proof", "40 theorems: shl = (x*2^s) mod 2^BITS, shr = floor(x/2^s) zero-filling and sign-propagating, checked/overflowing/unbounded/strict/inherent forms, wrapping = s mod BITS for power-of-two BITS, rotations as cyclic permutations for EVERY width incl. non-powers of two, rotl/rotr inverses, machine-checked refutation of the pre-fix rotate; two tie theorems: 22 glue functions and the loops unchecked_shl_internal, unchecked_shr_pad_internal, rotate_digits_left, unchecked_rotate_left, swap_bytes, reverse_bits are REGENERATED from /repo's source on every run and proved equal to the model"),
     "C06": ("proof", "36 theorems: and/or/xor/not bitwise on the value, count_ones/zeros, leading/trailing zeros/ones, bits, bit/set_bit incl. the exact panic condition, power_of_two, is_power_of_two, checked/wrapping/inherent next_power_of_two, swap_bytes/reverse_bits as reversals and involutions; one tie theorem: the fifteen loop functions (bitand .. is_one) are REGENERATED from /repo's source on every run and proved equal to the model"),
@@ -25,11 +25,12 @@ STATUS = {
     "C19": ("proof", "33 theorems: FromPrimitive::from_{u,i}{8..128,size} = Some(value) iff representable for EVERY target width incl. narrower than the source, from_f32/f64 = Some(trunc) iff finite and in range (exact statement of what happens for negative floats into unsigned targets), ToPrimitive::to_* = Some iff in range, to_f32/f64 = Some(C14's cast), AsPrimitive = the As cast in all 11 directions, NumCast::from panics; num-traits default routing (from_u8 -> from_u64 ...) modelled as documented"),
     "C20": ("proof", "36 theorems: gen_range / Uniform::sample / sample_single(_inclusive) in range for every stream (RNG = universally quantified byte stream), accepted RNG words for each value are exactly q consecutive integers (unbiased by construction) for every BITS, zone formulas, Standard = little-endian decode and decode is a bijection onto [0, 2^BITS), slice fill = element-wise fill, no panic / fuel suffices"),
 }
+TRANSLATED = set()   # further properties whose prebuild runs a translator
 NA_REASON = "not yet built in this round (work in progress; see DESIGN.md section 9)"
 TRUST = ("Trusted: Coq 8.16.1 kernel (incl. vm_compute for the kernel-checked correspondence sample); coq/Prim.v models of Rust's "
          "primitive integer operations (modelled, not verified; exercised by the harness); the correspondence tie: Rust harness, "
-         "OCaml extraction (ExtrOcamlBasic only) + runner, Python driver/generators; the four source-to-Gallina translators "
-         "(tools/rs2v_*.py) and the vocabulary their output is written in (Prim.v, Model/DigitPrims.v, Model/LoopPrims.v, Model/Imp.v). No axioms: every property theorem prints "
+         "OCaml extraction (ExtrOcamlBasic only) + runner, Python driver/generators; the source-to-Gallina translators "
+         "(tools/rs2v_*.py) and the vocabulary their output is written in (Prim.v, Model/DigitPrims.v, Model/LoopPrims.v, Model/Imp.v, Model/ImpDiv.v). No axioms: every property theorem prints "
          "'Closed under the global context'.")
 
 def main():
@@ -46,7 +47,7 @@ def main():
                   "text": "Coq theorems, closed under the global context, stating the property about a Gallina model of the Rust functions for ALL digit widths, digit counts and operands (" + note + "); the model is tied to the current source on every run by a differential correspondence check (both build modes, boundary-biased + exhaustive small spaces, kernel-checked sample)",
                   "design_ref": "DESIGN.md section 6"}
             tech = "machine-checked proof in Coq (model = spec, all widths) + differential correspondence check model vs code"
-            if pid in ("C01", "C02", "C03", "C05", "C06", "C16"):
+            if pid in ("C01", "C02", "C03", "C05", "C06", "C08", "C16") or pid in TRANSLATED:
                 tech += " + source-to-Gallina translators with tie proofs (generated = model)"
         else:
             lc = {"category": "other",
